@@ -8,7 +8,7 @@
   `fwdWireOld` = as found).  Tied to the code by harness/cmd/c13 op `srv.fwd` (the forwarded
   datagram re-parsed with the SCION layers; listeners with and without rx timestamps).
 
-  As found (F21): a packet `SCION | HBH | [E2E] | UDP` was forwarded without its hop-by-hop
+  As found (F22): a packet `SCION | HBH | [E2E] | UDP` was forwarded without its hop-by-hop
   extension and with its end-to-end options (authenticator included) replaced by the dispatcher's
   timestamp option; without a receive timestamp nothing was written for the extensions while NextHdr
   kept announcing them — the datagram no longer parses.
